@@ -50,6 +50,20 @@ def cases(ctx: Ctx, res: Result):
     for pat, stream in corpus:
         res.count('corpus')
         yield Case([('ph', [pat, BYSTANDER])], 0, ev_ops(stream), 'corpus')
+    # ONE predicate object used by several patterns (the same predicate text is one object inside a configuration): what it
+    # remembers from an evaluation that raised must not leak into its next evaluation for another pattern / run
+    shared = [
+        [('ph', [P('p', ['0000', '0000'], [['raiseif:1:ne:9'], ['eq:2']]), P('q', ['0000', '0000'], [['raiseif:1:ne:9'], ['eq:3']])])],
+        [('ph', [P('p', ['0000', '0000'], [['raiseif:1:ne:9'], ['eq:2']])]), ('qh', [P('q', ['0000', '0000', '0000'], [['raiseif:1:ne:9'], ['eq:3'], ['eq:0']])])],
+        [('ph', [P('p', ['0000', '0100', '0000'], [['eq:0'], ['raiseif:2:ne:9'], ['eq:3']]), P('q', ['0000', '0000'], [['eq:0'], ['raiseif:2:ne:9']]),
+                 P('r', ['0000', '0000'], [['raiseif:2:ne:9'], ['eq:1']])])],
+        [('ph', [P('p', ['0000', '0000'], [['eq:0'], ['eq:1']], pre=['raiseif:2:ne:9']), P('q', ['0000', '0000'], [['eq:0'], ['eq:1']], pre=['raiseif:2:ne:9'],
+                                                                                            halt=['raiseif:2:ne:9'])])],
+    ]
+    for phens in shared:
+        for s in ([0, 1, 2, 3], [0, 1, 0, 1, 2], [2, 1, 0, 1], [0, 0, 2, 2, 1, 3], [1, 0, 1, 3]):
+            res.count('shared_predicate_object')
+            yield Case(phens, 0, ev_ops(s), 'shared')
     streams = list(gp.all_streams(4))
     nsite, nstream = (4, 20) if ctx.thorough else (2, 7)
     for pat in gp.exhaustive_patterns(3, ctx.thorough):
